@@ -7,8 +7,8 @@ import subprocess
 ROOT = os.path.dirname(os.path.abspath(__file__))
 import sys
 sys.path.insert(0, ROOT)
-from registry import PROPS
-from claims import CLAIMS, NOT_APPLICABLE, HOOK_COMMITS
+from registry import PROPS, CLAIMS
+from claims import NOT_APPLICABLE, HOOK_COMMITS
 
 all_ids = [json.loads(l)["id"] for l in open(os.path.join(ROOT, "properties.jsonl"))]
 
